@@ -142,6 +142,25 @@ def decorator_transparency(prog: Program, module, dec: ast.expr) -> tuple[str, s
     if not calls:
         return "undecided", f"decorator {ref.short}: the call of the wrapped function was not found"
     for wrapper, call in calls:
+        # a memoising wrapper: the wrapped call sits under a membership test on a container of the decorator (`if key not in known: known[key] = f(..)`)
+        # - then every argument that reaches the wrapped function is part of the key
+        wparams = [a.arg for a in wrapper.args.posonlyargs + wrapper.args.args + wrapper.args.kwonlyargs]
+        for node in ast.walk(wrapper):
+            if isinstance(node, ast.If) and any(x is call for x in ast.walk(node)) and isinstance(node.test, ast.Compare) and len(node.test.ops) == 1 \
+                    and isinstance(node.test.ops[0], (ast.In, ast.NotIn)) and isinstance(node.test.comparators[0], ast.Name):
+                key = node.test.left
+                names = {n.id for n in ast.walk(key) if isinstance(n, ast.Name)}
+                # one level of local definitions: key = int(coalition)
+                for st in wrapper.body:
+                    if isinstance(st, ast.Assign) and len(st.targets) == 1 and isinstance(st.targets[0], ast.Name) and st.targets[0].id in names:
+                        names |= {n.id for n in ast.walk(st.value) if isinstance(n, ast.Name)}
+                passed = {n.id for a in list(call.args) + [k.value for k in call.keywords] for n in ast.walk(a) if isinstance(n, ast.Name)} & set(wparams)
+                missing = sorted(passed - names)
+                if wrapper.args.vararg is not None and wrapper.args.vararg.arg in names:
+                    missing = []
+                if missing:
+                    return "violation", (f"decorator {ref.short} memoises by {src(key)[:40]}: the argument(s) {missing} reach the wrapped function but are not part of the key - "
+                                         "the first call fixes the result for every later call that differs only there (another player count, another game)")
         # chain of statements from the wrapper body down to the call
         def chain(stmts, acc):
             for st in stmts:
